@@ -26,14 +26,14 @@ LEVEL = "model_checking"
 BOUNDS = {"hours_per_series": "N=2", "topology": "1 usage pattern, 1 step holding the service job next to a plain job "
           "(or alone), on one Server / GPUServer / BoaviztaCloudServer", "numeric builder parameters": "symbolic",
           "categorical choices": "7 resolutions; ecobenchmark technology x implementation detail (quick: seeded sample of 6, "
-          "thorough: all 29 rows); ecologits provider/model (quick 3, thorough 40 sampled); Boavizta provider/instance "
+          "thorough: all 29 rows); ecologits provider/model (quick: one per parameter-count shape + 3, thorough: all); Boavizta provider/instance "
           "(quick 3, thorough 40 sampled)", "durations": "video duration / GenAI latency bounded to <= 2 h"}
 ASSUMPTIONS = ["the plain model carries, as inputs, the parameter values the builder derived, and the service's base "
                "consumption added to the server's", "stated rules: bitrate = w*h*bits_per_pixel*refresh_rate (bits/s), data "
                "transferred = bitrate*duration, compute = cpu cost*bitrate, ram = buffer per user; GenAI latency/RAM/compute "
                "formulas of the class docstrings; web application: ecobenchmark row (read from the CSV by the oracle)",
-               "ecologits model parameters and Boavizta instance data are read through the same packaged data as the builder "
-               "(the oracle checks how they are *used*, not the data)"]
+               "ecologits model parameters are read from the packaged EcoLogits repository and Boavizta instance data by calling the "
+               "boaviztapi package directly (the oracle checks how they are *used*, not the data)"]
 RESOLUTIONS = ["480p (640 x 480)", "720p (1280 x 720)", "1080p (1920 x 1080)", "1440p (2560 x 1440)", "2K (2048 x 1080)",
                "4K (3840 x 2160)", "8K (7680 x 4320)"]
 
@@ -264,26 +264,42 @@ def h_cloud(ctx, provider, instance_type, edit_instance=None):
     A = builder_model(instance_type)
     V.observe_system(ctx, A, "A.")
 
-    def plain_model(ref):
+    def oracle(itype):
+        """derived server parameters straight from the boaviztapi package (not through e-footprint)"""
+        import asyncio
+        from boaviztapi.routers.cloud_router import instance_cloud_impact
+        r = asyncio.run(instance_cloud_impact(provider=provider, instance_type=itype, criteria=["gwp"]))
+        ctx.require(r["verbose"]["avg_power"]["unit"] == "W" and r["verbose"]["memory"]["unit"] == "GB", "oracle: Boavizta units are W and GB")
+        return dict(fab=float(r["impacts"]["gwp"]["embedded"]["value"]), power=float(r["verbose"]["avg_power"]["value"]),
+                    ram=float(r["verbose"]["memory"]["value"]), compute=float(r["verbose"]["vcpu"]["value"]))
+
+    def plain_model(ora):
         st = Storage.from_defaults("st")
-        srv = Server("srv", ServerTypes.autoscaling(), SourceValue(ref.carbon_footprint_fabrication.value), SourceValue(ref.power.value),
-                     common["lifespan"](), common["idle_power"](), SourceValue(ref.ram.value), SourceValue(ref.compute.value),
+        srv = Server("srv", ServerTypes.autoscaling(), SourceValue(ora["fab"] * u.kg), SourceValue(ora["power"] * u.W),
+                     common["lifespan"](), common["idle_power"](), SourceValue(ora["ram"] * u.GB), SourceValue(ora["compute"] * u.cpu_core),
                      common["power_usage_effectiveness"](), common["average_carbon_intensity"](), common["server_utilization_rate"](),
                      common["base_ram_consumption"](), common["base_compute_consumption"](), st)
         job = Job("pjob", server=srv, **{p: sv(env, f"pjob.{p}", d, un) for p, d, un in M.PARAMS["job"]})
         o = dict(srv=srv, st=st, **usage_side(env, [job]))
         o["system"] = System("system", [o["up"]])
         return o
-    B = plain_model(A["srv"])
-    V.compare_systems(ctx, A, B, "cloud-instance model = plain server model", names={"srv", "st", "net", "up", "system"},
-                      skip={"srv.api_call_response", "srv.carbon_footprint_fabrication", "srv.power", "srv.ram", "srv.compute"})
-    resp = A["srv"].api_call_response.value
-    ctx.eq(_q(A["srv"].power), float(resp["verbose"]["avg_power"]["value"]), "rule: power = Boavizta average power")
-    ctx.eq(_q(A["srv"].ram), float(resp["verbose"]["memory"]["value"]) * 8 * 10 ** 9, "rule: RAM = Boavizta memory")
-    ctx.eq(_q(A["srv"].compute), float(resp["verbose"]["vcpu"]["value"]), "rule: compute = Boavizta vcpu")
-    ctx.eq(_q(A["srv"].carbon_footprint_fabrication), float(resp["impacts"]["gwp"]["embedded"]["value"]), "rule: fabrication = Boavizta embedded gwp")
+
+    def rules(ora, when):
+        ctx.eq(_q(A["srv"].power), ora["power"], f"rule{when}: power = Boavizta average power")
+        ctx.eq(_q(A["srv"].ram), ora["ram"] * 8 * 10 ** 9, f"rule{when}: RAM = Boavizta memory")
+        ctx.eq(_q(A["srv"].compute), ora["compute"], f"rule{when}: compute = Boavizta vcpu")
+        ctx.eq(_q(A["srv"].carbon_footprint_fabrication), ora["fab"], f"rule{when}: fabrication = Boavizta embedded gwp")
+    # derived parameters are calculated attributes of the builder and inputs of the plain server: compared by `rules`
+    skip = {"srv.api_call_response", "srv.carbon_footprint_fabrication", "srv.power", "srv.ram", "srv.compute"}
+    ora = oracle(instance_type)
+    rules(ora, "")
+    V.compare_systems(ctx, A, plain_model(ora), "cloud-instance model = plain server model", names={"srv", "st", "net", "up", "system"}, skip=skip)
     if edit_instance:
         A["srv"].instance_type = SourceObject(edit_instance)
+        ora2 = oracle(edit_instance)
+        rules(ora2, f" after switching to {edit_instance}")
+        V.compare_systems(ctx, A, plain_model(ora2), f"after switching instance type to {edit_instance}: live = plain server model",
+                          names={"srv", "st", "net", "up", "system"}, skip=skip)
         A2 = builder_model(edit_instance)
         V.compare_systems(ctx, A, A2, f"after switching instance type to {edit_instance}: live = fresh",
                           names={"srv", "st", "net", "up", "system"}, skip={"srv.api_call_response"})
@@ -315,7 +331,16 @@ def plan(tier, seed):
     from ecologits.model_repository import models
     ms = [(m.provider.name, m.name) for m in models.list_models()]
     rnd.shuffle(ms)
-    for c in ([("mistralai", "open-mistral-7b")] + ms[:(40 if tier == "thorough" else 3)]):
+    # one representative of every shape the repository gives a parameter count in (dense / mixture of experts, each as a
+    # number or as a range), then a sample (thorough: every model)
+    shapes = {}
+    for m in sorted(models.list_models(), key=lambda m: (m.provider.name, m.name)):
+        par = m.architecture.parameters
+        shape = ("dense", hasattr(par, "min")) if (isinstance(par, (int, float)) or hasattr(par, "min")) else \
+            ("moe", hasattr(par.active, "min"), hasattr(par.total, "min"))
+        shapes.setdefault(shape, (m.provider.name, m.name))
+    chosen = [("mistralai", "open-mistral-7b")] + list(shapes.values()) + (ms if tier == "thorough" else ms[:3])
+    for c in dict.fromkeys(chosen):
         p.append(("service", dict(kind="genai", choice=list(c), mixed=False)))
     p.append(("service", dict(kind="genai", choice=["mistralai", "open-mistral-7b"], mixed=False, edit=["sjob.output_token_count", "dimensionless"])))
     p.append(("service", dict(kind="genai", choice=["mistralai", "open-mistral-7b"], mixed=False, edit=["svc.nb_of_bits_per_parameter", "dimensionless"])))
@@ -326,4 +351,5 @@ def plan(tier, seed):
     for prov, it in ([("scaleway", "ent1-s")] + inst[:(40 if tier == "thorough" else 3)]):
         p.append(("cloud", dict(provider=prov, instance_type=it)))
     p.append(("cloud", dict(provider="scaleway", instance_type="ent1-s", edit_instance="ent1-m")))
+    p.append(("cloud", dict(provider="scaleway", instance_type="dev1-s", edit_instance="ent1-l")))
     return p
